@@ -620,6 +620,10 @@ def build_lib() -> dict:
     lib["asyncio"].attrs["wait_for"] = VBuiltin("asyncio.wait_for", asyncio_wait_for)
     for n in ("CancelledError", "TimeoutError", "QueueEmpty", "QueueFull"):
         lib["asyncio"].attrs[n] = VClass(n)
+    basic = VModule("Basic", {"Ack": VClass("BasicAck"), "ConsumeOk": VClass("BasicConsumeOk"), "CancelOk": VClass("BasicCancelOk"),
+                              "Properties": VClass("AmqpProperties")})
+    lib["Basic"] = basic
+    lib["aiormq"] = VModule("aiormq", {"spec": VModule("aiormq.spec", {"Basic": basic})})
     lib["ceil"] = VBuiltin("math.ceil", b_ceil)
     lib["floor"] = VBuiltin("math.floor", b_floor)
     lib["math"] = VModule("math", {"ceil": lib["ceil"], "floor": lib["floor"]})
